@@ -84,12 +84,24 @@ def gen(seed, idx, tier):
     if large:
         mode = "inproc"
         variants = variants[:3]
+    reuse = False
+    if mode == "inproc" and not large and rnd.random() < 0.2 and not scn["options"]["skip_time"]:
+        # the same seed Solution OBJECT handed to every member: a run must not modify its inputs
+        reuse = True
+        if scn["drive"]["field"]["kind"] in ("ramp", "pw", "sin"):
+            scn["drive"]["field"] = {"kind": "const", "B": scn["drive"]["field"]["B"]}
+        cur2 = scn["drive"]["currents"]
+        if cur2 is not None and cur2["kind"] in ("pw", "ramp"):
+            scn["drive"]["currents"] = {"kind": "const", "I": cur2["values"][0] if cur2["kind"] == "pw" else cur2["I0"]}
+        if (scn["drive"].get("epsilon") or {}).get("kind") == "timedep":
+            scn["drive"]["epsilon"] = None
+        variants = variants[:3]
     if mode == "inproc":
         # 16 workers share 16 cores: keep the in-process members to a few threads each
         for v in variants:
             v["threads"] = min(v["threads"], rnd.choice([2, 3, 4]))
             v["affinity"] = None
-    return {"mode": mode, "base": scn, "variants": variants, "options": scn["options"], "device": scn["device"], "drive": scn["drive"], "faults": []}
+    return {"mode": mode, "reuse_seed": reuse, "base": scn, "variants": variants, "options": scn["options"], "device": scn["device"], "drive": scn["drive"], "faults": []}
 
 
 def execute(scn, var, timeout=600):
@@ -109,7 +121,7 @@ def execute(scn, var, timeout=600):
     return json.loads(lines[-1][len("C09PARTS "):])
 
 
-def execute_inproc(scn, var):
+def execute_inproc(scn, var, seed_solution=None):
     """Same scenario in THIS worker process under another thread count / chunk size / clock /
     RNG seed / output location / amount of earlier work: cheap, so the parallel kernel is
     sampled far more often than fresh interpreters allow."""
@@ -125,7 +137,7 @@ def execute_inproc(scn, var):
     if var.get("chunk"):
         numba.set_parallel_chunksize(var["chunk"])
     try:
-        sim, h = run_scenario(s)
+        sim, h = run_scenario(s, seed_solution=seed_solution)
     finally:
         numba.set_parallel_chunksize(old_chunk)
     try:
@@ -149,7 +161,19 @@ def run(scn):
     from concurrent.futures import ThreadPoolExecutor
 
     base_scn = scn["base"]
-    if scn.get("mode") == "inproc":
+    if scn.get("mode") == "inproc" and scn.get("reuse_seed"):
+        from ..engine import run_scenario
+
+        s0 = copy.deepcopy(base_scn)
+        s0["observer"] = {"output": {"path": "seed.h5", "absolute": True}}
+        sim0, h0 = run_scenario(s0)
+        try:
+            if h0.outcome != "solution":
+                raise Discard(f"seed run did not complete: {h0.outcome}")
+            parts = [execute_inproc(base_scn, v, seed_solution=h0.solution) for v in scn["variants"]]
+        finally:
+            sim0.cleanup()
+    elif scn.get("mode") == "inproc":
         parts = [execute_inproc(base_scn, v) for v in scn["variants"]]
     else:
         with ThreadPoolExecutor(max_workers=len(scn["variants"])) as tp:
@@ -188,7 +212,7 @@ def run(scn):
         "exc": None,
         "violations": [dict(v) for v in V],
         "nontrivial": nup >= 3,
-        "sig": (scn.get("mode"), ref["outcome"].split(":")[0], bool(base_scn["options"]["include_screening"]), bool(base_scn["options"]["adaptive"]), base_scn["drive"]["field"]["kind"], (base_scn["drive"]["currents"] or {}).get("kind"), tuple(sorted({v["threads"] for v in scn["variants"]})), ref.get("threading_layer")),
+        "sig": (scn.get("mode"), bool(scn.get("reuse_seed")), ref["outcome"].split(":")[0], bool(base_scn["options"]["include_screening"]), bool(base_scn["options"]["adaptive"]), base_scn["drive"]["field"]["kind"], (base_scn["drive"]["currents"] or {}).get("kind"), tuple(sorted({v["threads"] for v in scn["variants"]})), ref.get("threading_layer")),
         "fingerprint": digest_obj([{k: v for k, v in p.items()} for p in parts]),
         "stats": {"steps": sum(p["n_updates"] for p in parts), "sim_time": 0.0, "probes": {("fresh_processes" if scn.get("mode") != "inproc" else "inproc_executions"): len(parts), "threads:" + "/".join(str(v["threads"]) for v in scn["variants"]): 1}, "faults": [], "attempts": 0, "screen_iters": 0, "sites": 0, "members": len(parts) if scn.get("mode") != "inproc" else 0, "inproc_members": len(parts) if scn.get("mode") == "inproc" else 0},
         "discard": None,
